@@ -12,7 +12,7 @@ pub static PROP: Prop = Prop {
     title: "Quotienting a lax diagram merges exactly the unified nodes, atomically",
     check,
     max_tape: (200, 360),
-    cases: (100_000, 2_000_000),
+    cases: (200_000, 2_000_000),
     both_profiles: false,
     rule: "generated lax open hypergraphs with a list of unification pairs (self pairs, repeats, chains, pairs across label boundaries; half of the cases label-consistent by construction), followed by 1-3 rounds of [more unifications, optionally a new node/edge, quotient]; every quotient call is compared with a reference union-find and the diagram is inspected before and after; non-trivial = at least one pair joining two distinct nodes (failing quotients counted as a class); distinct = hash of the initial diagram and the history",
     assumptions: &["on Err nothing is demanded of the returned map, only that the diagram is unchanged"],
